@@ -52,6 +52,17 @@ def main(pid):
                     continue
                 texts.append(tpl.replace("{R}", s["string"]).replace("{Y}", str(y)))
         texts.append(f"Foo v. Bar, 1 {s['string']} 1.")
+    # two year positions at once: a year before a parallel group and a year after it (each in / out of range)
+    pair_years = [1599, 1600, 1990, today + 1, today + 2, 2100]
+    for y1 in pair_years:
+        for y2 in pair_years:
+            texts.append(f"Foo v. Bar ({y1}) 1 Cal.3d 1, 2 Cal.Rptr. 3 ({y2})")
+            texts.append(f"Foo v. Bar ({y1}) 1 Cal.3d 1, 2 Cal.Rptr. 3 (Cal. {y2}) (holding x).")
+            texts.append(f"Foo v. Bar ({y1}) 1 Cal.3d 1, 2 Cal.Rptr. 3, 4 P.2d 5 [{y2}]")
+    for s_ in amb[:: (1 if thorough else 3)]:
+        for y1, y2 in ((1599, 1990), (2100, 1850), (1990, 2100), (today + 2, 1900), (1850, 1599)):
+            texts.append(f"Foo v. Bar ({y1}) 1 {s_['string']} 1, 5 U.S. 137 ({y2}).")
+            texts.append(f"Foo v. Bar ({y1}) 5 U.S. 137, 1 {s_['string']} 1 ({y2}).")
     docs = list(gendocs.pairs())
     rnd.shuffle(docs)
     texts += EXTRA_DOCS + docs[: (4000 if thorough else 800)]
